@@ -1,6 +1,6 @@
 (* C19 -- Sample statistics and burn-in/thinning are exact functions of the stored chain.
    Property theorems only: each is closed by `exact <lemma>` and followed by Print Assumptions. *)
-From CV Require Import Base.Tac Base.Cmp Model.C19_Stats Proofs.C19_Stats.
+From CV Require Import Base.Tac Base.Cmp Model.C19_Stats Proofs.C19_Stats Model.C19_History Proofs.C19_History.
 From Coq Require Import QArith Sorting.Sorted.
 
 (* burnthin(Nb,Nt) returns exactly the stored samples Nb, Nb+Nt, Nb+2Nt, ... in order: the i-th
@@ -77,6 +77,99 @@ Theorem C19_names_to_chains : forall (names : list string) (rows : list (list Z)
   dict_get (nth i names d0) (arviz_dict names rows) = Some (nth i rows []).
 Proof. exact arviz_dict_row. Qed.
 Print Assumptions C19_names_to_chains.
+
+(* ---------------- histories: sequences of operations on a set of live objects ----------------
+   (Model/C19_History.v: state = the live objects in order of creation; every operation -- each statistic,
+   compute_ci / ci_width, the arviz / ESS / R-hat hand-over, funvals / vector / parameters, burnthin,
+   JointSamples.burnthin, plot_* / diagnostics -- returns a value and the next state) *)
+
+(* no sequence of operations changes, removes or reorders a stored object: the state recorded after
+   ANY operation of ANY history still holds every initial object, chain and flags, at its place ... *)
+Theorem C19_history_chains_unchanged : forall (g : geom) (ops : list op) (st : list hobj) (k : nat) (v : oval)
+    (s : list hobj) (i : nat),
+  nth_error (run g ops st) k = Some (v, s) -> (i < length st)%nat -> nth_error s i = nth_error st i.
+Proof. exact trace_object_unchanged. Qed.
+Print Assumptions C19_history_chains_unchanged.
+
+(* ... and the same for objects built during the history (burnthin children, converted samples, members of a
+   burn-thinned joint set): every later state extends every earlier one *)
+Theorem C19_history_states_monotone : forall (g : geom) (ops : list op) (st : list hobj) (k1 k2 : nat)
+    (v1 v2 : oval) (s1 s2 : list hobj),
+  (k1 <= k2)%nat -> nth_error (run g ops st) k1 = Some (v1, s1) -> nth_error (run g ops st) k2 = Some (v2, s2) ->
+  exists ext, s2 = s1 ++ ext.
+Proof. intros g ops st k1 k2 v1 v2 s1 s2. exact (run_states_monotone g ops st k1 k2 v1 s1 v2 s2). Qed.
+Print Assumptions C19_history_states_monotone.
+
+(* an operation changes the state only by appending the objects it returns *)
+Theorem C19_history_step_appends : forall (g : geom) (o : op) (st : list hobj),
+  snd (step g o st) = st ++ created (fst (step g o st)).
+Proof. exact step_creates. Qed.
+Print Assumptions C19_history_step_appends.
+
+(* what an operation returns depends on the stored objects it reads only: not on the operations executed
+   before it (for R-hat: given the answer of the geometry comparison, which is an input of ORhat) ... *)
+Theorem C19_history_value_independent : forall (g : geom) (ops : list op) (o : op) (st : list hobj),
+  (forall i, In i (op_targets o) -> (i < length st)%nat) ->
+  fst (step g o (final g ops st)) = fst (step g o st).
+Proof. exact history_value_indep. Qed.
+Print Assumptions C19_history_value_independent.
+
+(* ... in any two states that agree on the objects it reads ... *)
+Theorem C19_history_value_local : forall (g : geom) (o : op) (st st' : list hobj),
+  (forall i, In i (op_targets o) -> nth_error st i = nth_error st' i) ->
+  (exists args, lookup_all st (op_targets o) = Some args) ->
+  fst (step g o st) = fst (step g o st').
+Proof. exact step_value_local. Qed.
+Print Assumptions C19_history_value_local.
+
+(* ... and the statistics on the chain alone *)
+Theorem C19_history_stat_chain_only : forall (g : geom) (o : op) (x y : hobj),
+  is_stat_op o = true -> s_chain x = s_chain y -> op_value g o [x] = op_value g o [y].
+Proof. exact stat_value_chain_only. Qed.
+Print Assumptions C19_history_stat_chain_only.
+
+(* after any history, burnthin(Nb,Nt) of an object returns draws Nb, Nb+Nt, ... of the chain as first stored,
+   with the flags and geometry of the object *)
+Theorem C19_history_burnthin : forall (g : geom) (ops : list op) (st : list hobj) (i nb nt : nat) (x x' : hobj),
+  nth_error st i = Some x ->
+  fst (step g (OBurnthin i nb nt) (final g ops st)) = VObj x' ->
+  (forall k d, nth k (s_chain x') d = nth (nb + k * nt) (s_chain x) d) /\
+  length (s_chain x') = ((length (s_chain x) - nb + nt - 1) / nt)%nat /\
+  s_is_par x' = s_is_par x /\ s_is_vec x' = s_is_vec x /\ s_geom x' = s_geom x.
+Proof. exact history_burnthin_exact. Qed.
+Print Assumptions C19_history_burnthin.
+
+(* after any history, a joint burnthin burn-thins every member as first stored *)
+Theorem C19_history_joint : forall (g : geom) (ops : list op) (st : list hobj) (ms : list nat) (nb nt : nat)
+    (xs rs : list hobj),
+  lookup_all st ms = Some xs ->
+  fst (step g (OJoint ms nb nt) (final g ops st)) = VObjs rs ->
+  Forall2 (fun x r => obj_burnthin nb nt x = Some r) xs rs.
+Proof. exact history_joint_exact. Qed.
+Print Assumptions C19_history_joint.
+
+(* FINDING (cuqi.geometry, reached through compute_rhat): the geometry comparison compute_rhat starts with is
+   NOT history independent.  _all_values_equal walks the attributes of the left geometry and looks each one up in
+   the right one; an attribute cached lazily on one side only (`_funvec_shape`, set by to_arviz_inferencedata /
+   compute_ess / compute_rhat on vector-form function values) makes it raise in one direction while it still
+   answers "equal" in the other.  This is why ORhat takes the comparison's answer as an input. *)
+Theorem C19_rhat_geometry_eq_history_refuted :
+  exists (g : list (string * Z)) (k : string) (v : Z),
+    all_values_equal g g = Some true /\
+    all_values_equal (dict_set k v g) g = None /\
+    all_values_equal g (dict_set k v g) = Some true.
+Proof. exact geometry_eq_lazy_cache_refuted. Qed.
+Print Assumptions C19_rhat_geometry_eq_history_refuted.
+
+(* non-vacuity of the history theorems: a concrete history (median, burnthin, median of the child, median again) *)
+Example C19_history_example :
+  let st := [mkS [[5]; [1]; [4]; [2]; [3]]%Z true true 0%nat] in
+  map fst (run (mkG [] 1 0 false) [OMedian 0; OBurnthin 0 1 2; OMedian 1; OMedian 0] st) =
+    [VStat [median [5; 1; 4; 2; 3]%Z]; VObj (mkS [[1]; [2]]%Z true true 0%nat); VStat [median [1; 2]%Z];
+     VStat [median [5; 1; 4; 2; 3]%Z]] /\
+  final (mkG [] 1 0 false) [OMedian 0; OBurnthin 0 1 2; OMedian 1; OMedian 0] st =
+    st ++ [mkS [[1]; [2]]%Z true true 0%nat].
+Proof. split; reflexivity. Qed.
 
 (* non-vacuity: a concrete chain meets the hypotheses *)
 Example C19_example :
